@@ -9,6 +9,7 @@ from .. import routes as RT
 from .. import summary as SM
 from .. import symx as SX
 from ..model import calls_in, get_arg, is_self_attr, method_name, strip_doc
+from .. import shapes as SH
 from ..report import AnalysisError, Ctx, norm_src
 
 
@@ -134,7 +135,7 @@ def check_phase_machine(ctx):
     rr = model.own_method("GPO", "receive_reward")
     q = "GPO.receive_reward"
     g = C.CFG(rr)
-    incs = [n for n in g.nodes if n.kind == "stmt" and norm_src(n.ast) in ("self.counter += 1", "self.counter = self.counter + 1")]
+    incs = [n for n in g.nodes if n.kind == "stmt" and SH.is_increment(n.ast, "self.counter")]
     ok = len(incs) == 1
     ctx.ob("R09-PHASE", ok, c.file, q, "self.counter += 1", "%d increment site(s)" % len(incs), rr.lineno)
     if not ok:
@@ -150,7 +151,7 @@ def check_phase_machine(ctx):
     for n in credits:
         ctx.ob("R09-PHASE", g.must_pass(n, [inc], [g.exit]), c.file, q, norm_src(n.ast)[:60], "followed by the counter increment on every path", n.line)
     # roll-over
-    roll = [n for n in g.nodes if n.kind == "stmt" and norm_src(n.ast) in ("self.phase += 1", "self.phase = self.phase + 1")]
+    roll = [n for n in g.nodes if n.kind == "stmt" and SH.is_increment(n.ast, "self.phase")]
     okr = len(roll) == 1
     if okr:
         atoms = [a for a, t, lab, e in C.facts_at(g, roll[0])]
@@ -183,35 +184,39 @@ def check_validation(ctx):
     pull = model.own_method("GPO", "pull")
     q = "GPO.pull"
     g = C.CFG(pull)
-    # goodx = the learner's latest proposal
-    lp = [s for s in ast.walk(pull) if isinstance(s, ast.Assign) and isinstance(s.value, ast.Call) and norm_src(s.value.func) == "self.curr_algo.pull"]
-    ok = len(lp) == 1 and isinstance(lp[0].targets[0], ast.Name)
-    if ok:
-        v = lp[0].targets[0].id
-        blk = model.up(lp[0]).body if lp[0] in getattr(model.up(lp[0]), "body", []) else model.up(lp[0]).orelse
-        ok = any(norm_src(s) == "self.goodx = %s" % v for s in blk)
-        atoms = [a for a, t, lab, e in C.facts_at(g, g.node_of(lp[0]))]
-        ok = ok and ("<", "self.counter", "self.half_phase_length") in atoms
-    ctx.ob("R09-VALID", ok, c.file, q, "self.goodx = the learner's last proposed point", "stored next to the learner's pull, in learner rounds only", pull.lineno)
-    # slot creation: V_x.append(goodx) and V_reward.append(0) once per phase, at counter == half
-    ax = [x for x in ast.walk(pull) if isinstance(x, ast.Call) and norm_src(x.func) == "self.V_x.append"]
-    ar = [x for x in ast.walk(pull) if isinstance(x, ast.Call) and norm_src(x.func) == "self.V_reward.append"]
-    ok = len(ax) == 1 and len(ar) == 1 and norm_src(ar[0].args[0]) == "0"
-    if ok:
-        at = g.node_of(ax[0])
-        atoms = [a for a, t, lab, e in C.facts_at(g, at)]
-        ok = tuple(sorted(("self.counter", "self.half_phase_length"))) in [tuple(sorted((a[1], a[2]))) for a in atoms if a[0] == "=="]
-        arg = ax[0].args[0]
-        src = norm_src(arg)
-        if isinstance(arg, ast.Name):
-            ds = [s for s in model.up(model.enclosing_stmt(ax[0])).body if isinstance(s, ast.Assign) and norm_src(s.targets[0]) == src] \
-                if hasattr(model.up(model.enclosing_stmt(ax[0])), "body") else []
-            ok = ok and len(ds) == 1 and norm_src(ds[0].value) == "self.goodx"
+    # goodx = the learner's latest proposal (path-wise: on every path that asks the learner, self.goodx receives
+    # exactly that proposal and the proposal is what pull returns; on every other unfinished path pull returns goodx)
+    pf, pparams, ppaths, pfns = CR.method_paths(model, "GPO", "pull")
+    ok = bool(ppaths)
+    detail = []
+    for p in ppaths:
+        lp = [e for e in p.events if e[0] == "lpull"]
+        rets = [e for e in p.events if e[0] == "ret"]
+        gw = [w for w in p.writes if w[0] == "self.goodx"]
+        cd = dict(p.conds)
+        if lp:
+            call_src = "%s.pull(%s)" % (lp[0][1], ", ".join(lp[0][2]))
+            good = len(lp) == 1 and lp[0][1] == "self.curr_algo" and len(gw) == 1 and gw[0][2] == call_src and \
+                len(rets) == 1 and rets[0][1] in ("self.goodx", call_src) and cd.get("self.counter < self.half_phase_length") is True
+            detail.append("learner round: goodx <- %s, returns %s" % (gw[0][2] if gw else None, rets[0][1] if rets else None))
         else:
-            ok = ok and src == "self.goodx"
-        ok = ok and model.up(model.enclosing_stmt(ax[0])) is model.up(model.enclosing_stmt(ar[0]))
+            good = not gw and len(rets) == 1 and rets[0][1] == "self.goodx"
+            detail.append("validation/finished: returns %s" % (rets[0][1] if rets else None))
+        ok &= good
+    ctx.ob("R09-VALID", ok, c.file, q, "learner rounds store the learner's proposal in goodx and return it; all other rounds return goodx",
+           "; ".join(sorted(set(detail))), pull.lineno)
+    # slot creation: V_x.append(goodx) and V_reward.append(0) once per phase, at counter == half
+    slot_paths = [p for p in ppaths if any(w[0] in ("self.V_x[]", "self.V_reward[]") for w in p.writes)]
+    ok = bool(slot_paths)
+    for p in slot_paths:
+        wx = [w for w in p.writes if w[0] == "self.V_x[]"]
+        wr = [w for w in p.writes if w[0] == "self.V_reward[]"]
+        cd = dict(p.conds)
+        eqh = [c0 for c0, pol in p.conds if pol and c0 in ("self.counter == self.half_phase_length", "self.half_phase_length == self.counter")]
+        ok &= len(wx) == 1 and len(wr) == 1 and wx[0][2] == "self.goodx" and wr[0][2] == "0" and bool(eqh) and ".append(" in wx[0][1] and ".append(" in wr[0][1]
     ctx.ob("R09-VALID", ok, c.file, q, "one validation slot per phase: V_x.append(goodx); V_reward.append(0) when counter == half",
-           "recognised" if ok else "slot creation not recognised", pull.lineno)
+           "%d path(s) create a slot" % len(slot_paths) if ok else "slot creation not recognised: %s" % [[w[1] for w in p.writes] for p in slot_paths][:2],
+           pull.lineno)
     for fn in c.methods.values():
         if fn.name in ("__init__", "pull"):
             continue
@@ -219,13 +224,6 @@ def check_validation(ctx):
             if isinstance(x, ast.Call) and isinstance(x.func, ast.Attribute) and is_self_attr(x.func.value) and x.func.value.attr in ("V_x", "V_reward") \
                     and x.func.attr in ("append", "extend", "pop", "insert", "remove", "clear"):
                 ctx.violation("R09-VALID", c.file, "GPO.%s" % fn.name, norm_src(x), "validation slots are changed outside pull's slot creation", x.lineno)
-    # validation pulls return the point under validation
-    rets_ok = True
-    for s in ast.walk(pull):
-        if isinstance(s, ast.Assign) and norm_src(s.targets[0]) == "point" and norm_src(s.value) not in ("self.goodx", "self.curr_algo.pull(time)"):
-            rets_ok = False
-    ctx.ob("R09-VALID", rets_ok, c.file, q, "validation rounds return the point being validated", "point = self.goodx outside learner rounds", pull.lineno,
-           nontrivial=False)
     # running mean over counter - half, target slot phase-1
     fn, params, paths, fns = CR.credit_paths(model, "GPO")
     from . import c04
